@@ -390,4 +390,249 @@ theorem step_path (f : Nat) (ih : Inv f) (s : PSt) :
   · exact hfil
   · exact OkP_syn _ _ _
 
+
+theorem inv_all (f : Nat) : Inv f := by
+  induction f with
+  | zero => exact inv_zero
+  | succ f ih =>
+    exact ⟨step_level f ih, step_levelRest f ih, step_unary f ih, step_unionRest f ih, step_path f ih,
+      step_locPath f ih, step_filterPath f ih, step_primary f ih, step_preds f ih, step_relPath f ih,
+      step_step f ih⟩
+
+/-- the must/when parser never runs out of the fuel it is given -/
+theorem parseExprToks_nofuel (strict : Bool) (toks : List LexedTok) : parseExprToks strict toks ≠ .error .fuel := by
+  unfold parseExprToks
+  have h := (inv_all (24 * toks.length + 24)).level 0 { toks := toks, strict := strict }
+  have hn : NoFuel (pLevel (24 * toks.length + 24) 0 { toks := toks, strict := strict }) := h.1 (by simp)
+  cases hr : pLevel (24 * toks.length + 24) 0 { toks := toks, strict := strict } with
+  | error e =>
+    simp only [bind, Except.bind]
+    intro hc; injection hc with hc
+    exact hn (by rw [hr, hc])
+  | ok s =>
+    simp only [bind, Except.bind]
+    split <;> simp [pure, Except.pure, synErr]
+
+
+/-! ### the leafref path parser -/
+
+/-- like `OkP`, with a strict bound: a successful result has consumed at least one token -/
+def OkS (p : Prop) (n : Nat) (r : P PSt) : Prop := (p → NoFuel r) ∧ ∀ s', r = .ok s' → s'.toks.length + 1 ≤ n
+
+theorem OkS_bind (p : Prop) (n : Nat) (x : P PSt) (g : PSt → P PSt) (hx : OkS p n x)
+    (hg : ∀ a, a.toks.length + 1 ≤ n → OkS p n (g a)) : OkS p n (x >>= g) := by
+  cases x with
+  | error e =>
+    refine ⟨fun hp => ?_, fun s' hs => by simp [bind, Except.bind] at hs⟩
+    have := hx.1 hp
+    simp only [bind, Except.bind]
+    intro h; injection h with h; exact this (by rw [h])
+  | ok a =>
+    have ha := hx.2 a rfl
+    simpa [bind, Except.bind] using hg a ha
+
+theorem OkS_of_OkP (p : Prop) (n m : Nat) (r : P PSt) (h : OkP p m r) (hm : m + 1 ≤ n) : OkS p n r :=
+  ⟨h.1, fun s' hs => by have := h.2 s' hs; omega⟩
+
+theorem OkP_of_OkS (p : Prop) (n : Nat) (r : P PSt) (h : OkS p n r) : OkP p n r :=
+  ⟨h.1, fun s' hs => by have := h.2 s' hs; omega⟩
+
+theorem OkS_syn (p : Prop) (n : Nat) (s : PSt) : OkS p n (synErr s) :=
+  ⟨fun _ => by simp [NoFuel, synErr], fun s' hs => by simp [synErr] at hs⟩
+
+theorem OkS_lNodeId (p : Prop) (s : PSt) : OkS p s.toks.length (lNodeId s) := by
+  unfold lNodeId
+  split
+  · rename_i px l h
+    have hlt := len_adv_lt s (peek_ne_eof_of_eq s _ h (by simp))
+    refine ⟨fun _ => by simp [NoFuel, pure, Except.pure], fun s' hs => ?_⟩
+    simp only [pure, Except.pure] at hs; injection hs with hs; subst hs
+    simp only [len_emit]; exact hlt
+  · exact OkS_syn _ _ _
+
+theorem OkP_lExpectTok (p : Prop) (n : Nat) (t : Tok) (s : PSt) (h : s.toks.length ≤ n) : OkP p n (lExpectTok t s) := by
+  unfold lExpectTok
+  split
+  · exact OkP_pure p n _ (Nat.le_trans (len_adv s) h)
+  · exact OkP_syn p n s
+
+/-- continue a strict prefix with anything that does not grow the token list -/
+theorem OkS_then (p : Prop) (n : Nat) (x : P PSt) (g : PSt → P PSt) (hx : OkS p n x)
+    (hg : ∀ a, a.toks.length + 1 ≤ n → OkP p a.toks.length (g a)) : OkS p n (x >>= g) :=
+  OkS_bind p n x g hx (fun a ha => OkS_of_OkP p n a.toks.length (g a) (hg a ha) ha)
+
+structure InvL (f : Nat) : Prop where
+  keyNames : ∀ s, OkP (8 * s.toks.length + 1 ≤ f) s.toks.length (lKeyPath.lKeyNames f s)
+  keyPath : ∀ up s, OkP (8 * s.toks.length + 2 ≤ f) s.toks.length (lKeyPath f up s)
+  afterNode : ∀ s, OkP (8 * s.toks.length + 3 ≤ f) s.toks.length (lSteps.lAfterNode f s)
+  steps : ∀ s, OkP (8 * s.toks.length + 1 ≤ f) s.toks.length (lSteps f s)
+  preds : ∀ s, OkP (8 * s.toks.length + 3 ≤ f) s.toks.length (lPreds f s)
+  rel : ∀ s, OkP (8 * s.toks.length + 1 ≤ f) s.toks.length (lRel f s)
+
+theorem invL_zero : InvL 0 := by
+  constructor <;> intros
+  all_goals (simp only [lKeyPath.lKeyNames, lKeyPath, lSteps.lAfterNode, lSteps, lPreds, lRel]; exact OkP_fuel0 _ _ (by omega))
+
+/-- the tail of a predicate after `current`: `( ) / key-path ]` -/
+theorem okP_predTail (f : Nat) (ih : InvL f) (p : Prop) (n : Nat) (c : PSt) (hc : c.toks.length ≤ n)
+    (hp : p → 8 * n + 2 ≤ f) :
+    OkP p n (do
+      let s ← expectCh '(' c
+      let s ← expectCh ')' s
+      let s ← expectCh '/' s
+      let s ← lKeyPath f false s
+      let s ← expectCh ']' s
+      pure (emit s .lrefPredEnd)) := by
+  apply OkP_bind _ _ _ _ (OkP_expectCh _ _ '(' c hc)
+  intro d hd
+  apply OkP_bind _ _ _ _ (OkP_expectCh _ _ ')' d hd)
+  intro e he
+  apply OkP_bind _ _ _ _ (OkP_expectCh _ _ '/' e he)
+  intro g hg
+  apply OkP_bind _ _ _ _ (OkP_weaken _ _ _ _ _ (ih.keyPath false g) (by intro h; have := hp h; omega) hg)
+  intro k hk
+  apply OkP_bind _ _ _ _ (OkP_expectCh _ _ ']' k hk)
+  intro m hm
+  exact OkP_pure _ _ _ (by simp only [len_emit]; exact hm)
+
+/-- one predicate: consumes at least its first name -/
+theorem okS_lPred (f : Nat) (ih : InvL f) (s : PSt) :
+    OkS (8 * s.toks.length + 2 ≤ f) s.toks.length (lPred f s) := by
+  unfold lPred
+  have h0 : (emit (adv s) .lrefPredStart).toks.length ≤ s.toks.length := by simp only [len_emit]; exact len_adv s
+  have hn := OkS_lNodeId (8 * s.toks.length + 2 ≤ f) (emit (adv s) .lrefPredStart)
+  have hn' : OkS (8 * s.toks.length + 2 ≤ f) s.toks.length (lNodeId (emit (adv s) .lrefPredStart)) :=
+    ⟨hn.1, fun s' hs => by have := hn.2 s' hs; omega⟩
+  apply OkS_then _ _ _ _ hn'
+  intro a ha
+  apply OkP_bind _ _ _ _ (OkP_lExpectTok _ _ .eq a (Nat.le_refl _))
+  intro b hb
+  simp only []
+  split
+  · apply OkP_bind _ _ _ _ (OkP_pure _ _ _ (Nat.le_trans (len_adv _) (by simp only [len_emit]; exact hb)))
+    intro c hc
+    exact okP_predTail f ih _ _ c hc (by omega)
+  · apply OkP_bind _ _ _ _ (OkP_syn _ _ _)
+    intro c hc
+    exact okP_predTail f ih _ _ c hc (by omega)
+
+theorem stepL_keyNames (f : Nat) (ih : InvL f) (s : PSt) :
+    OkP (8 * s.toks.length + 1 ≤ f + 1) s.toks.length (lKeyPath.lKeyNames (f + 1) s) := by
+  simp only [lKeyPath.lKeyNames]
+  apply OkP_of_OkS
+  apply OkS_then _ _ _ _ (OkS_lNodeId _ s)
+  intro a ha
+  split
+  · have := len_adv a
+    exact OkP_weaken _ _ _ _ _ (ih.keyNames (adv a)) (by omega) this
+  · exact OkP_pure _ _ _ (Nat.le_refl _)
+
+theorem stepL_keyPath (f : Nat) (ih : InvL f) (up : Bool) (s : PSt) :
+    OkP (8 * s.toks.length + 2 ≤ f + 1) s.toks.length (lKeyPath (f + 1) up s) := by
+  simp only [lKeyPath]
+  split
+  · rename_i h
+    have hlt := len_adv_lt s (peek_ne_eof_of_eq s _ h (by simp))
+    refine OkP_weaken _ _ _ (adv s).toks.length _ ?_ (fun h => h) (len_adv s)
+    apply OkP_bind _ _ _ _ (OkP_expectCh _ _ '/' (emit (adv s) .pathDotDot) (by simp [len_emit]))
+    intro a ha
+    exact OkP_weaken _ _ _ _ _ (ih.keyPath true a) (by omega) ha
+  · split
+    · exact OkP_syn _ _ _
+    · exact OkP_weaken _ _ _ _ _ (ih.keyNames s) (by omega) (Nat.le_refl _)
+  · exact OkP_syn _ _ _
+
+theorem stepL_afterNode (f : Nat) (ih : InvL f) (s : PSt) :
+    OkP (8 * s.toks.length + 3 ≤ f + 1) s.toks.length (lSteps.lAfterNode (f + 1) s) := by
+  simp only [lSteps.lAfterNode]
+  split
+  · apply OkP_of_OkS
+    have hp := okS_lPred f ih s
+    apply OkS_then _ _ _ _ ⟨fun h => hp.1 (by omega), hp.2⟩
+    intro a ha
+    exact OkP_weaken _ _ _ _ _ (ih.afterNode a) (by omega) (Nat.le_refl _)
+  · split
+    · have := len_adv s
+      exact OkP_weaken _ _ _ _ _ (ih.steps (adv s)) (by omega) (by omega)
+    · exact OkP_pure _ _ _ (Nat.le_refl _)
+
+theorem stepL_steps (f : Nat) (ih : InvL f) (s : PSt) :
+    OkP (8 * s.toks.length + 1 ≤ f + 1) s.toks.length (lSteps (f + 1) s) := by
+  simp only [lSteps]
+  apply OkP_of_OkS
+  apply OkS_then _ _ _ _ (OkS_lNodeId _ s)
+  intro a ha
+  exact OkP_weaken _ _ _ _ _ (ih.afterNode a) (by omega) (Nat.le_refl _)
+
+theorem stepL_preds (f : Nat) (ih : InvL f) (s : PSt) :
+    OkP (8 * s.toks.length + 3 ≤ f + 1) s.toks.length (lPreds (f + 1) s) := by
+  simp only [lPreds]
+  apply OkP_of_OkS
+  have hp := okS_lPred f ih s
+  apply OkS_then _ _ _ _ ⟨fun h => hp.1 (by omega), hp.2⟩
+  intro a ha
+  split
+  · exact OkP_weaken _ _ _ _ _ (ih.preds a) (by omega) (Nat.le_refl _)
+  · exact OkP_pure _ _ _ (Nat.le_refl _)
+
+theorem okP_lDesc (f : Nat) (ih : InvL f) (s : PSt) :
+    OkP (8 * s.toks.length + 1 ≤ f) s.toks.length (lDesc f s) := by
+  unfold lDesc
+  apply OkP_of_OkS
+  apply OkS_then _ _ _ _ (OkS_lNodeId _ s)
+  intro a ha
+  split
+  · apply OkP_bind _ _ _ _ (OkP_weaken _ _ _ _ _ (ih.preds a) (by omega) (Nat.le_refl _))
+    intro b hb
+    apply OkP_bind _ _ _ _ (OkP_expectCh _ _ '/' b hb)
+    intro c hc
+    exact OkP_weaken _ _ _ _ _ (ih.steps c) (by omega) hc
+  · split
+    · have := len_adv a
+      exact OkP_weaken _ _ _ _ _ (ih.steps (adv a)) (by omega) this
+    · exact OkP_pure _ _ _ (Nat.le_refl _)
+
+theorem stepL_rel (f : Nat) (ih : InvL f) (s : PSt) :
+    OkP (8 * s.toks.length + 1 ≤ f + 1) s.toks.length (lRel (f + 1) s) := by
+  simp only [lRel]
+  split
+  · rename_i h
+    have hlt := len_adv_lt s (peek_ne_eof_of_eq s _ h (by simp))
+    refine OkP_weaken _ _ _ (adv s).toks.length _ ?_ (fun h => h) (len_adv s)
+    apply OkP_bind _ _ _ _ (OkP_expectCh _ _ '/' (emit (adv s) .pathDotDot) (by simp [len_emit]))
+    intro a ha
+    split
+    · exact OkP_weaken _ _ _ _ _ (ih.rel a) (by omega) ha
+    · exact OkP_weaken _ _ _ _ _ (okP_lDesc f ih a) (by omega) ha
+  · exact OkP_syn _ _ _
+
+theorem invL_all (f : Nat) : InvL f := by
+  induction f with
+  | zero => exact invL_zero
+  | succ f ih =>
+    exact ⟨stepL_keyNames f ih, stepL_keyPath f ih, stepL_afterNode f ih, stepL_steps f ih, stepL_preds f ih, stepL_rel f ih⟩
+
+theorem NoFuel_bind {x : P PSt} {g : PSt → P PSt} (hx : NoFuel x) (hg : ∀ a, NoFuel (g a)) : NoFuel (x >>= g) := by
+  cases x with
+  | error e => simp only [bind, Except.bind]; intro h; injection h with h; exact hx (by rw [h])
+  | ok a => simpa [bind, Except.bind] using hg a
+
+/-- the leafref path parser never runs out of the fuel it is given -/
+theorem parseLeafrefToks_nofuel (toks : List LexedTok) : parseLeafrefToks toks ≠ .error .fuel := by
+  unfold parseLeafrefToks
+  have hI := invL_all (8 * toks.length + 8)
+  have htail : ∀ a : PSt, NoFuel (if peekTok (emit a .evalLocPath) = .eof then (pure (emit (emit a .evalLocPath) .store) : P PSt)
+      else synErr (emit a .evalLocPath)) := by
+    intro a; split <;> simp [NoFuel, pure, Except.pure, synErr]
+  have hsyn : ∀ (s0 : PSt) (g : PSt → P PSt), NoFuel (synErr s0 >>= g) := by
+    intro s0 g; simp [NoFuel, synErr, bind, Except.bind]
+  simp only []
+  split
+  · split
+    · have := len_adv ({ toks := toks } : PSt)
+      exact NoFuel_bind ((hI.steps (emit (adv { toks := toks }) .pathRoot)).1 (by simp only [len_emit]; simp at this ⊢; omega)) htail
+    · exact hsyn _ _
+  · exact NoFuel_bind ((hI.rel { toks := toks }).1 (by simp)) htail
+  · exact hsyn _ _
+
 end YV.XP
